@@ -862,6 +862,24 @@ func TestDriver(t *testing.T) {
 		v := a.violV[k]
 		if f := knownMatch(known, v); f != nil {
 			knownHits[f.Rule+"/"+f.Sig] = len(a.viol[k])
+			// keep one replayable example per listed finding (shortest run of this batch, not minimised)
+			runs := a.viol[k]
+			sort.Slice(runs, func(i, j int) bool { return runs[i].Steps < runs[j].Steps })
+			ex := runs[0]
+			spec := ex.Spec
+			spec.Replay, spec.Trace = true, true
+			spec.Sch, spec.Scn = ex.Sch, ex.Scn
+			if len(spec.Sch)+len(spec.Scn) > 0 {
+				final := dispatchRun(t, spec)
+				if hasViolation(final, v.Rule, v.Sig) {
+					final.Sch, final.Scn = spec.Sch, spec.Scn
+					rf := replayFile{Property: prop, Rule: v.Rule, Sig: v.Sig, Msg: v.Msg, Engine: meta.Engine, Spec: spec, Hash: final.Hash, Desc: final.Desc, Trace: final.Trace}
+					dir := filepath.Join(env("VERIF_REPLAY_DIR", filepath.Join(verifDir(), "replays")), "known")
+					_ = os.MkdirAll(dir, 0o755)
+					b, _ := json.MarshalIndent(rf, "", " ")
+					_ = os.WriteFile(filepath.Join(dir, fmt.Sprintf("%s-%s-%s.json", prop, v.Rule, sanitize(v.Sig))), b, 0o644)
+				}
+			}
 			continue
 		}
 		newViol++
